@@ -21,8 +21,9 @@ Definition covered (a : darr) (o : op) : bool :=
   | OStack nm _ _ _ _ => match nm with Some n => negb (String.eqb n "") | None => true end
   | OBroadcast axs => negb (existsb (String.eqb "") (map aname axs))
   | ONewaxis n _ _ => negb (String.eqb n "")
+  | OUnflatten => groups_okb a
+  | OReshape newdims => groups_okb a && negb (existsb (String.eqb "") (flat_map split_commas newdims))
   | ORenameAxis r n => match axis_info a r with Ok i => negb (mem_str n (remove_nth i (dims a))) | Err _ => true end
-  | _ => false
   end.
 
 Theorem apply_op_wf ins o a v : Forall WF ins -> WF a -> covered a o = true -> apply_op ins o a = Ok v -> WFv v.
@@ -73,6 +74,11 @@ Proof.
   - destruct (interp_axis k news r left right a) eqn:E; simpl in H; [|discriminate]. injection H as <-. eapply interp_axis_wf; eassumption.
   - destruct (interp_like others left right a) eqn:E; simpl in H; [|discriminate]. injection H as <-. eapply interp_like_wf; eassumption.
   - destruct (flatten rs as_set insert a) eqn:E; simpl in H; [|discriminate]. injection H as <-. eapply flatten_wf; eassumption.
+  - destruct (unflatten a) eqn:E; simpl in H; [|discriminate]. injection H as <-. eapply unflatten_wf; [exact Hw | apply groups_okb_ok; exact Hc | exact E].
+  - destruct (reshape newdims a) eqn:E; simpl in H; [|discriminate]. injection H as <-.
+    apply andb_true_iff in Hc. destruct Hc as [Hc1 Hc2]. apply negb_true_iff in Hc2.
+    eapply reshape_wf; [exact Hw | apply groups_okb_ok; exact Hc1 | | exact E].
+    intros Hin. apply existsb_str_In in Hin. exact (eq_true_false_abs _ Hin Hc2).
   - destruct (axis_info a r) as [i|]; simpl in H; [|discriminate]. destruct (String.eqb_spec n ""); [discriminate|].
     injection H as <-. apply rename_axis_wf; [exact Hw | assumption |]. apply negb_true_iff in Hc. apply mem_str_false. exact Hc.
   - destruct (axis_info a r) as [j|]; simpl in H; [|discriminate].
